@@ -116,7 +116,8 @@ class Import(Stream):
             voices = rand_voices(rng, nb, lens)
             while not any(voices):
                 voices = rand_voices(rng, nb, lens)
-            yield {"chords": chords, "lens": lens, "voices": voices, "order": rng.choice(["onset", "onset", "voice", "voice_rev"])}
+            yield {"chords": chords, "lens": lens, "voices": voices, "order": rng.choice(["onset", "onset", "voice", "voice_rev"]),
+                   "via_matrix": rng.random() < 0.4}
 
     def impl(self, case):
         from musiclang.analyze.to_musiclang import infer_score_with_chords_durations
@@ -132,6 +133,9 @@ class Import(Stream):
                 items.sort(key=lambda x: (-x.track, -x.voice, x.start))   # the last voice first; inside a voice always by onset
             else:
                 items.sort(key=lambda x: x.start)
+            if case.get("via_matrix") and not case.get("via_table"):
+                # the alternative constructor of the voice-separation path: rows in the column order of Item.array()
+                items = Item.frommatrix([it.array() for it in items])
             if case.get("via_table"):
                 # the entry point of the MIDI import: a table of notes (exact quarter-note positions) turned into items by convert_to_items
                 import pandas as pd
@@ -237,7 +241,7 @@ class ImportTracks(Stream):
                                 # pitched General MIDI instruments whose name contains 'drum': not drum kits
                                 ["steel_drums", "piano", "taiko_drum"][:ntr], ["synth_drum", "synth_drum", "violin"][:ntr]])
             yield {"chords": chords, "lens": lens, "tracks": tracks, "instr": instr, "via_table": rng.random() < 0.5,
-                   "order": rng.choice(["onset", "onset", "voice", "voice_rev"])}
+                   "order": rng.choice(["onset", "onset", "voice", "voice_rev"]), "via_matrix": rng.random() < 0.5}
 
     def impl(self, case):
         from musiclang.analyze.to_musiclang import infer_score_with_chords_durations
@@ -254,6 +258,9 @@ class ImportTracks(Stream):
                 items.sort(key=lambda x: (-x.track, -x.voice, x.start))   # the last voice first; inside a voice always by onset
             else:
                 items.sort(key=lambda x: x.start)
+            if case.get("via_matrix") and not case.get("via_table"):
+                # the alternative constructor of the voice-separation path: rows in the column order of Item.array()
+                items = Item.frommatrix([it.array() for it in items])
             if case.get("via_table"):
                 # the entry point of the MIDI import: a table of notes (exact quarter-note positions) turned into items by convert_to_items
                 import pandas as pd
